@@ -1,4 +1,5 @@
 import abc
+import math
 
 import torch
 
@@ -67,8 +68,9 @@ class Condition(torch.nn.Module):
         data_functions = {
             fun: UserFunction(data_functions[fun]) for fun in data_functions
         }
-        if isinstance(sampler, StaticSampler):
-            # functions can be evaluated once
+        if isinstance(sampler, StaticSampler) and sampler.resample_interval == math.inf:
+            # the points never change: functions can be evaluated once
+            # (a static sampler that resamples gets its data evaluated in every forward call)
             for fun in data_functions:
                 points = sampler.sample_points()
                 data_fun_points = data_functions[fun](points)
@@ -292,7 +294,8 @@ class SingleModuleCondition(Condition):
     def _move_static_data(self, device):
         if self.sampler.is_static:
             for fn in self.data_functions:
-                self.data_functions[fn].fun = self.data_functions[fn].fun.to(device)
+                if torch.is_tensor(self.data_functions[fn].fun):
+                    self.data_functions[fn].fun = self.data_functions[fn].fun.to(device)
 
 
 class MeanCondition(SingleModuleCondition):
@@ -650,10 +653,14 @@ class PeriodicCondition(Condition):
     def _move_static_data(self, device):
         if self.non_periodic_sampler.is_static:
             for fn in self.left_data_functions:
+                if not torch.is_tensor(self.left_data_functions[fn].fun):
+                    continue
                 self.left_data_functions[fn].fun = self.left_data_functions[fn].fun.to(
                     device
                 )
             for fn in self.right_data_functions:
+                if not torch.is_tensor(self.right_data_functions[fn].fun):
+                    continue
                 self.right_data_functions[fn].fun = self.right_data_functions[
                     fn
                 ].fun.to(device)
@@ -790,7 +797,8 @@ class IntegroPINNCondition(Condition):
     def _move_static_data(self, device):
         if self.sampler.is_static:
             for fn in self.data_functions:
-                self.data_functions[fn].fun = self.data_functions[fn].fun.to(device)
+                if torch.is_tensor(self.data_functions[fn].fun):
+                    self.data_functions[fn].fun = self.data_functions[fn].fun.to(device)
 
 
 class AdaptiveWeightsCondition(SingleModuleCondition):
@@ -1075,7 +1083,8 @@ class HPM_EquationLoss_at_Sampler(Condition):
     def _move_static_data(self, device):
         if self.sampler.is_static:
             for fn in self.data_functions:
-                self.data_functions[fn].fun = self.data_functions[fn].fun.to(device)
+                if torch.is_tensor(self.data_functions[fn].fun):
+                    self.data_functions[fn].fun = self.data_functions[fn].fun.to(device)
 
 
 class HPCMCondition(Condition):
